@@ -328,13 +328,20 @@ pub(crate) fn value_cmp(lhs: &dyn ValueView, rhs: &dyn ValueView) -> Option<Orde
     }
 
     if let (Some(x), Some(y)) = (lhs.as_object(), rhs.as_object()) {
-        return x
-            .iter()
-            .map(|(k, v)| (k, ValueViewCmp(v)))
-            .partial_cmp(y.iter().map(|(k, v)| (k, ValueViewCmp(v))));
+        // The iteration order of an object is unspecified and may differ between two equal
+        // objects: compare the entries in key order.
+        return sorted_entries(x)
+            .into_iter()
+            .partial_cmp(sorted_entries(y));
     }
 
     None
+}
+
+fn sorted_entries<'o>(object: &'o dyn ObjectView) -> Vec<(KStringCow<'o>, ValueViewCmp<'o>)> {
+    let mut entries: Vec<_> = object.iter().map(|(k, v)| (k, ValueViewCmp(v))).collect();
+    entries.sort_by(|(a, _), (b, _)| a.cmp(b));
+    entries
 }
 
 #[cfg(test)]
